@@ -2,7 +2,9 @@
    (cane.py:167-257) that find_orfs uses: default 'start'/'stop' codon alternations with the [-]* gap rewriting,
    leftmost non-overlapping finditer, reading frame = residues before the match (bisect on the gap positions),
    the reverse-complement pass for backward frames (BioSeq.rc is the C05 model). No proofs here.
-   Not modelled: custom start/stop regexes, gap characters other than '-', ftype/seqid bookkeeping. *)
+   Also modelled: the ORF features (type, seqid, strand, rf) of BioSeq.find_orfs / BioBasket.find_orfs (seq.py:563-568, 1058-1063)
+   and FeatureList.filter(len_<op>=v) by its meaning; the specification side gives the exact result of every mode.
+   Not modelled: custom start/stop regexes, gap characters other than '-'. *)
 From Coq Require Import List ZArith NArith Bool.
 From Coq.Strings Require Import Byte.
 Import ListNotations.
@@ -211,6 +213,83 @@ Fixpoint spec_default (starts stops : list Z) (prev : Z) : list (Z * Z) :=
       end
   end.
 
+(* every mode. need_start='always' with either need_stop: as above, and for need_stop=False one more ORF from the first
+   start at or after the last stop of the frame to the end of the sequence (L = len(seq)) *)
+Fixpoint spec_always (need_stop : bool) (L : Z) (starts stops : list Z) (prev : Z) : list (Z * Z) :=
+  match stops with
+  | [] => if need_stop then [] else
+          match find (fun a => prev <=? a) starts with Some a => [(a, L)] | None => [] end
+  | e :: r =>
+      match find (fun a => (prev <=? a) && (a <? e)) starts with
+      | Some a => (a, e) :: spec_always need_stop L starts r e
+      | None => spec_always need_stop L starts r e
+      end
+  end.
+
+(* need_start='once' (from its first start codon) and 'never' (from the first residue of the frame): a chain from position
+   i1 through the consecutive stops after it, every link from the end of one stop to the end of the next, as long as the
+   link begins before [last] (the end of the last residue); for need_stop=False a final link to the end of the sequence *)
+Fixpoint spec_chain (need_stop : bool) (last L : Z) (i1 : Z) (stops : list Z) : list (Z * Z) :=
+  match stops with
+  | [] => if need_stop || (last <=? i1) then [] else [(i1, L)]
+  | e :: r => if last <=? i1 then []
+              else if e <=? i1 then spec_chain need_stop last L i1 r
+              else (i1, e) :: spec_chain need_stop last L e r
+  end.
+
+Definition spec_mode (ns : nstart) (need_stop : bool) (fs last L : Z) (starts stops : list Z) : list (Z * Z) :=
+  match ns with
+  | NSAlways => spec_always need_stop L starts stops 0
+  | NSOnce => match starts with [] => [] | a :: _ => spec_chain need_stop last L a stops end
+  | NSNever => spec_chain need_stop last L fs stops
+  end.
+
+(* ---- ORF features, BioSeq.find_orfs / BioBasket.find_orfs, the len_* filters ------------------------------------- *)
+(* _inds2orf (cane.py:267-282) builds Feature(ftype, start, stop) with seqid = seq.id, loc.strand, meta.rf *)
+Record feat := mkfeat { ft_type : str; ft_seqid : str; ft_orf : orf }.
+Inductive fresult := FOk (l : list feat) | FErr (e : str).
+Definition tag_orfs (ftype id : str) (r : result) : fresult :=
+  match r with
+  | ROk l => FOk (map (mkfeat ftype id) l)
+  | RAssert => FErr (bs "AssertionError"%bs)
+  | RFuel => FErr (bs "OutOfFuel"%bs)
+  end.
+(* BioSeq.find_orfs, seq.py:563-568; a sequence is (id, text) *)
+Definition seq_find_orfs (ftype : str) (rf : rfspec) (ns : nstart) (need_stop : bool) (minlen : Z) (sq : str * str) : fresult :=
+  tag_orfs ftype (fst sq) (find_orfs rf ns need_stop minlen (snd sq)).
+Definition fapp (a b : fresult) : fresult :=
+  match a, b with
+  | FOk x, FOk y => FOk (x ++ y)
+  | FOk _, e => e
+  | e, _ => e
+  end.
+(* BioBasket.find_orfs, seq.py:1058-1063: reduce(+, [seq.find_orfs(...) for seq in self]); reduce of an empty list
+   raises TypeError *)
+Fixpoint basket_orfs (ftype : str) (rf : rfspec) (ns : nstart) (need_stop : bool) (minlen : Z) (seqs : list (str * str)) : fresult :=
+  match seqs with
+  | [] => FOk []
+  | sq :: r => fapp (seq_find_orfs ftype rf ns need_stop minlen sq) (basket_orfs ftype rf ns need_stop minlen r)
+  end.
+Definition basket_find_orfs (ftype : str) (rf : rfspec) (ns : nstart) (need_stop : bool) (minlen : Z) (seqs : list (str * str)) : fresult :=
+  if is_nil seqs then FErr (bs "TypeError"%bs) else basket_orfs ftype rf ns need_stop minlen seqs.
+
+(* FeatureList.filter(len_<op>=v) (fts.py:811-835, cane._filter cane.py:67-101 with allowed_funcs['len']):
+   keeps the features with op(len(ft), v); len(ft) is the range of its locations (Feature.__len__, fts.py:375) *)
+Inductive lenop := OpGe | OpGt | OpLe | OpLt | OpEq | OpNe | OpMin | OpMax.
+Definition lenop_test (op : lenop) (n v : Z) : bool :=
+  match op with
+  | OpGe | OpMin => n >=? v
+  | OpGt => n >? v
+  | OpLe | OpMax => n <=? v
+  | OpLt => n <? v
+  | OpEq => n =? v
+  | OpNe => negb (n =? v)
+  end.
+Definition feat_len (ft : feat) : Z := o_stop (ft_orf ft) - o_start (ft_orf ft).
+Definition filter_len (op : lenop) (v : Z) (l : list feat) : list feat := filter (fun ft => lenop_test op (feat_len ft) v) l.
+Definition fmap_res (g : list feat -> list feat) (r : fresult) : fresult :=
+  match r with FOk l => FOk (g l) | e => e end.
+
 (* number of residues (non-gap characters) in the first p columns *)
 Definition rb (s : str) (p : nat) : nat := length (filter (fun c => negb (is_gap c)) (firstn p s)).
 Definition degap (s : str) : str := filter (fun c => negb (is_gap c)) s.
@@ -242,3 +321,20 @@ Definition ns_of_N (n : N) : nstart := match n with 0%N => NSAlways | 1%N => NSO
 
 Definition run_C12 (rf : rfspec) (ns : N) (need_stop : bool) (minlen : Z) (s : str) : val :=
   VL [VB (wf_C12 rf (ns_of_N ns) need_stop minlen s); val_of_result (find_orfs rf (ns_of_N ns) need_stop minlen s)].
+
+(* baskets: BioBasket([BioSeq(text, id=id) ...]).find_orfs(rf, ..., minlen=, ftype=) optionally followed by
+   .filter(len_<op>=v); every feature is observed as [type, seqid, start, stop, strand, rf] *)
+Definition val_of_feat (ft : feat) : val :=
+  VL [VS (ft_type ft); VS (ft_seqid ft); VI (o_start (ft_orf ft)); VI (o_stop (ft_orf ft));
+      VS (if o_plus (ft_orf ft) then bs "+"%bs else bs "-"%bs); VI (o_rf (ft_orf ft))].
+Definition val_of_fresult (r : fresult) : val :=
+  match r with FOk l => VL (map val_of_feat l) | FErr e => VE e end.
+Definition lenop_of_N (n : N) : lenop :=
+  match n with 0%N => OpGe | 1%N => OpGt | 2%N => OpLe | 3%N => OpLt | 4%N => OpEq | 5%N => OpNe | 6%N => OpMin | _ => OpMax end.
+Definition wf_C12_basket (rf : rfspec) (ns : nstart) (need_stop : bool) (minlen : Z) (seqs : list (str * str)) : bool :=
+  negb (is_nil seqs) && forallb (fun sq => wf_C12 rf ns need_stop minlen (snd sq)) seqs.
+Definition run_C12_basket (ftype : str) (rf : rfspec) (ns : N) (need_stop : bool) (minlen : Z)
+           (flt : option (N * Z)) (seqs : list (str * str)) : val :=
+  let r := basket_find_orfs ftype rf (ns_of_N ns) need_stop minlen seqs in
+  VL [VB (wf_C12_basket rf (ns_of_N ns) need_stop minlen seqs);
+      val_of_fresult (match flt with Some (op, v) => fmap_res (filter_len (lenop_of_N op) v) r | None => r end)].
